@@ -1,22 +1,41 @@
 """C13 — searching a binary image for the header is exact and total.
 
-P   PANIC(find_header) = {}: slice accesses are get()-based or bounded by min(len, 8192)
-W   the scanned window is buffer[..min(len, 8192)], scanned with windows(4) and position() (std: first index)
-    whose predicate is u32::from_le_bytes(window) == MAGIC
-X   exits in dominance order: misaligned buffer -> Err(WrongAlignment); no match -> Ok(None); i % 8 != 0 ->
-    Err(WrongAlignment); length field (LE u32 at buffer[i+8..i+12]) unavailable -> Err; range [i, i+len) not in
-    the buffer -> Err; else Ok(Some((buffer[i..][..len], i as u32)))
+The function is read as a decision list over three quantities: n = buffer.len(), i = the index the search reports, and
+hl = the little-endian u32 at buffer[i+8..i+12].  Every bounds test - written with `get`, with an explicit length comparison,
+or implied by an indexing that has returned - is brought to a linear constraint over (n, i, hl) by SLICE (slices.py), so the
+rule does not depend on which of those spellings the code uses.
+
+P   PANIC(find_header) = {}: every panic edge / wrapping operation in its closure is discharged by facts
+W   the search: the first index i in 0.. with i + 4 <= min(n, 8192) and buffer[i..i+4] == MAGIC (little endian), or none.
+    Recognised forms: windows(4).position(pred) / windows(4).enumerate().find_map(..) over buffer[..min(n, 8192)] (std
+    contracts: windows yields all length-4 sub-slices in order, position / find_map stop at the first hit), and the counting
+    loop `i = 0; while i + 4 <= W { if buffer[i..i+4] == MAGIC {found i}; i += 1 }` read off the CFG (one loop, one carried
+    variable starting at 0 and advanced by 1 on the only back edge, left only by the guard failing or by the hit)
+X   exits, by what they return and under which path condition PC (all dominating facts, normalised):
+      Err(WrongAlignment) with align_offset(buffer) != 0        - before anything else
+      Ok(None)            exactly on the search's `none` outcome
+      Err(WrongAlignment) PC |- found, i % 8 != 0
+      Err(Memory::*)      PC |- found, i % 8 == 0, i + 12 > n                       (length field unavailable)
+      Err(Memory::*)      PC |- found, i % 8 == 0, i + 12 <= n, i + hl > n           (truncated)
+      Ok(Some((s, i)))    PC |- found, i % 8 == 0, i + 12 <= n, i + hl <= n, and s == buffer[i..i+hl]
+    Exits partition the inputs (they are the leaves of the CFG) and so do the six classes; each exit lying inside its class
+    makes the two partitions equal.
 """
 from .. import an
 from .. import select as SEL
 from .. import chain as CH
 from .. import guard as G
+from .. import mir as M
+from .. import slices as SL
 from .. import spec as S
+from .. import terms as T
 from ..guard import N, cn, arg
 from . import c02
 
 FH = "multiboot2_header::header::Multiboot2Header::<'_>::find_header"
 WINDOW = 8192
+BUF = arg(1)
+NLEN = ("len", BUF)
 
 
 def call(t, name):
@@ -25,14 +44,266 @@ def call(t, name):
     return None
 
 
-def range_(t, kind):
-    if isinstance(t, tuple) and t[0] == "aggr" and t[1][0] == "adt" and t[1][1] == "core::ops::range::" + kind:
-        return t[2]
-    return None
+def subterms(t, acc=None):
+    acc = acc if acc is not None else []
+    if isinstance(t, tuple):
+        acc.append(t)
+        for x in t:
+            if isinstance(x, tuple):
+                subterms(x, acc)
+    return acc
 
 
-def err_of(t):
-    return CH.describe(("aggr", ("adt", "core::result::Result", "Err", ()), (t,)))[1]
+def magic_bytes_le(t):
+    """t denotes the 4 little-endian bytes of the header magic (array value, reference or slice view of it)"""
+    for _ in range(5):
+        if isinstance(t, tuple) and t and t[0] in ("ref", "deref", "unsize"):
+            t = t[1]
+        else:
+            break
+    if t == ("to_bytes", "to_le_bytes", ("c", S.HEADER_MAGIC), "u32"):
+        return True
+    le = [(S.HEADER_MAGIC >> (8 * k)) & 0xFF for k in range(4)]
+    if t[0] == "aggr" and t[1] == ("array",) and [x[1] if x[0] == "c" else None for x in t[2]] == le:
+        return True
+    if t[0] == "cs" and len(t) > 2 and isinstance(t[2], (list, tuple)) and list(t[2]) == le:
+        return True
+    return False
+
+
+def window_pred(pred, window):
+    """pred (a boolean term or fact, SLICE-normalised) says: the 4 bytes of `window` are the little-endian magic.
+    window: ("sub", B, lo, hi) or an opaque slice term"""
+    p = pred
+    if p[0] in ("istrue",):
+        p = p[1]
+    if p[0] in ("cmp", "bin") and p[1] == "Eq":
+        for (x, y) in ((p[2], p[3]), (p[3], p[2])):
+            if y == ("c", S.HEADER_MAGIC):
+                # u32::from_le_bytes(window) == MAGIC
+                if window[0] == "sub" and x == ("le32", window[1], G.canon(window[2])):
+                    return True
+                if x[0] == "from_bytes" and x[1] == "from_le_bytes" and x[3] == "u32":
+                    src = x[2]
+                    if src[0] == "unwrap" and src[1][0] == "call" and "TryFrom<&[u8]> for [u8; 4]" in str(src[1][1]) and _same_slice(src[1][2][0], window):
+                        return True
+        return False
+    if p[0] == "call" and len(p[2]) == 2 and "PartialEq<" in str(p[1]) and (str(p[1]).endswith("::eq") or cn(p[1]).endswith("::eq")):
+        for (x, y) in ((p[2][0], p[2][1]), (p[2][1], p[2][0])):
+            if magic_bytes_le(y) and _same_slice(x, window):
+                return True
+    return False
+
+
+def _same_slice(x, window):
+    for _ in range(4):
+        if isinstance(x, tuple) and x and x[0] in ("ref", "deref") and x != window:
+            x = x[1]
+        else:
+            break
+    w = window
+    for _ in range(4):
+        if isinstance(w, tuple) and w and w[0] in ("ref", "deref") and x != w:
+            w = w[1]
+        else:
+            break
+    if x == w:
+        return True
+    if x[0] == "sub" and w[0] == "sub":
+        return x[1] == w[1] and SL.same(x[2], w[2]) and SL.same(x[3], w[3])
+    return False
+
+
+def is_window_len(Wt):
+    """Wt == min(buffer.len(), 8192)"""
+    if Wt[0] == "min" and {G.strip(Wt[1]), G.strip(Wt[2])} == {NLEN, ("c", WINDOW)}:
+        return True
+    if Wt[0] == "ite":
+        c = T._canon_ite(("ite", Wt[1], Wt[2], Wt[3]))
+        if c[0] == "min":
+            return is_window_len(c)
+    return False
+
+
+class Search:
+    def __init__(self):
+        self.kind = None
+        self.idx = None          # the term the rest of the function uses as the found index
+        self.k = None            # window length
+        self.W = None            # end of the scanned prefix (a term)
+        self.base_ok = False     # the scanned slice is buffer[0..W]
+        self.pred_ok = False
+        self.how = ""
+        self.found_block = None  # CFG form: blocks dominated by these are the outcomes
+        self.none_block = None
+        self.call = None         # iterator form: the position / find_map call term
+
+
+def search_of(F, A, inst, idx_term):
+    """how the index `idx_term` was found"""
+    s = Search()
+    s.idx = idx_term
+    nm = SL.Norm([], A)
+    if idx_term[0] == "fld" and idx_term[2] == 0 and idx_term[1][0] == "dc" and idx_term[1][1][0] == "call":
+        C = idx_term[1][1]
+        key = str(C[1])
+        name = cn(C[1])
+        args = C[2]
+        s.call = C
+        it = clo = None
+        if ("Iterator>::position" in key or name.endswith("Iterator::position")) and len(args) == 2:
+            s.kind = "windows(k).position(pred)"
+            it, clo = args
+            it = it[1] if it[0] == "ref" else it
+            enum = False
+        elif ("Iterator>::find_map" in key or name.endswith("Iterator::find_map")) and len(args) == 2:
+            s.kind = "windows(k).enumerate().find_map(pred -> index)"
+            it, clo = args
+            it = it[1] if it[0] == "ref" else it
+            e = it if it[0] == "call" and ("Iterator>::enumerate" in str(it[1]) or cn(it[1]).endswith("Iterator::enumerate")) and len(it[2]) == 1 else None
+            if e is None:
+                s.how = "find_map over %s" % G.show(it)[:80]
+                return s
+            it = e[2][0]
+            enum = True
+        else:
+            s.how = "index comes from %s" % name[:80]
+            return s
+        w = call(it, "core::slice::windows")
+        if w is None:
+            s.how = "iterator %s is not slice::windows" % G.show(it)[:80]
+            return s
+        scanned = nm.unref(nm.norm(w[0]))
+        size = nm.norm(w[1])
+        B, lo, hi = SL.as_sub(scanned)
+        s.k = size[1] if size[0] == "c" else None
+        s.base_ok = B == BUF and lo == ("c", 0)
+        s.W = hi
+        cf = SEL.closure_fn(F, clo, inst)
+        if cf is not None:
+            C2 = an.of(F, cf)
+            rt, _ = C2.ret()
+            if (rt is None or N(rt)[0] == "opq") and enum:
+                # `pred.then_some(idx)` / `if pred { Some(idx) } else { None }` written with two returns: rebuild the choice
+                exs = CH.exits(C2)
+                so = [e_ for e_ in exs if e_.kind == "Some"]
+                no = [e_ for e_ in exs if e_.kind == "None"]
+                if len(exs) == 2 and len(so) == 1 and len(no) == 1 and len(so[0].own) == 1:
+                    rt = ("ite", so[0].own[0], so[0].val, no[0].val)
+            if rt is not None:
+                r = SL.Norm([], C2).norm(SEL._bind_captures(N(rt), clo))
+                if not enum:
+                    s.pred_ok = window_pred(r, arg(2)) or window_pred(r, ("deref", arg(2)))
+                    s.how = "closure: %s" % G.show(r)[:160]
+                else:
+                    # |(idx, window)| if pred(window) { Some(idx) } else { None }
+                    win, ix = ("fld", arg(2), 1), ("fld", arg(2), 0)
+                    if r[0] == "ite" and r[2][0] == "aggr" and r[2][1][:3] == SL.SOME[:3] and r[3][0] == "aggr" and r[3][1][:3] == SL.NONE[:3] and r[2][2][0] == ix:
+                        s.pred_ok = window_pred(r[1], win)
+                    s.how = "closure: %s" % G.show(r)[:160]
+        return s
+    if idx_term[0] == "opq" and len(idx_term) > 3 and idx_term[1] == "phi" and not idx_term[3]:
+        return counting_search(F, A, idx_term, s)
+    s.how = "index term %s" % G.show(idx_term)[:100]
+    return s
+
+
+def counting_search(F, A, phi, s):
+    """i = 0; loop { if !(i + k <= W) {none}; if buffer[i..i+k] == MAGIC {found}; i += 1 }"""
+    b = A.body
+    L = phi[2]
+    s.kind = "counting loop"
+    defs = [d for d in A.tb.defs.get(L, []) if not d[3]]
+    if len(defs) != 2 or any(d[0] != "stmt" for d in defs):
+        s.how = "the index variable has %d definitions" % len(defs)
+        return s
+    vals = []
+    for d in defs:
+        st = b.stmts(d[1])[d[2]]
+        vals.append((d, N(A.tb.rvalue(st["rv"], (d[1], d[2]), st))))
+    init = [d for d, v in vals if v == ("c", 0)]
+    upd = [d for d, v in vals if v[0] == "bin" and v[1] == "Add" and {v[2], v[3]} == {N(phi), ("c", 1)}]
+    if len(init) != 1 or len(upd) != 1:
+        s.how = "index variable is not `0, then += 1`: %s" % [G.show(v)[:60] for _, v in vals]
+        return s
+    ub = upd[0][1]
+    loops = [(t, h) for (t, h) in b.back_edges() if ub in b.loop_blocks(h, t)]
+    heads = {h for (_, h) in loops}
+    if len(heads) != 1:
+        s.how = "the increment lies in %d loops" % len(heads)
+        return s
+    head = next(iter(heads))
+    blocks = set()
+    for (t, h) in loops:
+        blocks |= b.loop_blocks(h, t)
+    if init[0][1] in blocks or not b.dominates(init[0][1], head):
+        s.how = "the index is not initialised before the loop"
+        return s
+    if not all(b.dominates(ub, t) for (t, h) in loops):
+        s.how = "a back edge bypasses the increment"
+        return s
+    # the two branches between the loop head and the increment: the continue-guard and the (negated) hit test
+    sw = [(d, t_, lab) for (d, t_, lab) in A.g.dominating_edges(ub) if d in blocks and b.term(d)["k"] == "switch"]
+    if len(sw) != 2:
+        s.how = "%d branches between the loop head and the increment (expected the bound test and the comparison)" % len(sw)
+        return s
+    sw.sort(key=lambda e: 0 if b.dominates(e[0], sw[0][0]) and e[0] != sw[0][0] else 1)
+    if not b.dominates(sw[0][0], sw[1][0]):
+        sw.reverse()
+    (d1, t1, l1), (d2, t2, l2) = sw
+    # every other way out of the loop that can return
+    exits = []
+    for x in sorted(blocks):
+        for (y, lab) in b.succ[x]:
+            if y not in blocks and not b.diverges(y):
+                exits.append((x, y, lab))
+    none_e = [e for e in exits if e[0] == d1]
+    found_e = [e for e in exits if e[0] == d2]
+    if len(exits) != 2 or len(none_e) != 1 or len(found_e) != 1:
+        s.how = "the loop is left by %s (expected: the bound test failing, and the hit)" % [(x, y) for (x, y, _) in exits]
+        return s
+    s.none_block, s.found_block = none_e[0][1], found_e[0][1]
+    base = [N(f) for f in A.g.facts_at(d1)]
+    g = SL.norm_facts([N(f) for f in A.g.edge_facts(d1, t1, l1)], A)
+    g = [f for f in g if f[0] == "cmp"]
+    # guard: i + k <= W   (an `i <= i + k` conjunct of a get(i..i+k) is trivial)
+    bound = None
+    for f in g:
+        try:
+            lf = G.lin(f[2]).add(G.lin(f[3]), -1)      # a - b
+        except Exception:
+            continue
+        op = f[1]
+        if op in ("Ge", "Gt"):
+            lf, op = lf.scale(-1), {"Ge": "Le", "Gt": "Lt"}[op]
+        if op not in ("Le", "Lt"):
+            continue
+        if lf.m.get(N(phi)) == 1 and len(lf.m) >= 2:
+            k = lf.c + (1 if op == "Lt" else 0)
+            rest = {a_: c_ for a_, c_ in lf.m.items() if a_ != N(phi)}
+            if len(rest) == 1 and list(rest.values()) == [-1]:
+                bound = (k, next(iter(rest)))
+    if bound is None:
+        s.how = "continue-guard %s is not `i + k <= W`" % [G.show(f)[:80] for f in g]
+        return s
+    s.k, s.W = bound
+    s.base_ok = True
+    # hit test: on the found edge the comparison is true
+    fnd = SL.norm_facts([N(f) for f in A.g.edge_facts(found_e[0][0], found_e[0][1], found_e[0][2])], A)
+    nmz = SL.Norm(g + base, A)
+    window = ("sub", BUF, N(phi), SL.add(N(phi), ("c", s.k)))
+    ok = False
+    for f in fnd:
+        for x in subterms(f):
+            if x[0] == "call" and "PartialEq<" in str(x[1]):
+                xs = ("call", x[1], tuple(nmz.unref(nmz.norm(a_)) for a_ in x[2]))
+                if window_pred(xs, window):
+                    ok = True
+        if window_pred(f, window):
+            ok = True
+    s.pred_ok = ok
+    s.how = "i from 0 by 1; continue while i + %s <= %s; hit test %s" % (s.k, G.show(s.W)[:60], [G.show(f)[:100] for f in fnd])
+    return s
 
 
 def run(ctx):
@@ -42,135 +313,173 @@ def run(ctx):
         ctx.fail("ANCHOR", "find_header", "Multiboot2Header::find_header exists", "", "missing")
         return ctx.finish("other", "anchor missing", [], "")
     A = an.of(F, inst)
-    buf = arg(1)
-    # ---- W: window / scan structure (found from the position() call)
-    pos = win = clo = None
-    for bb, t in A.body.calls():
-        v = N(A.tb.call_value(t, bb))
-        a = call(v, "core::iter::traits::iterator::Iterator::position") or call(v, "<core::slice::iter::Windows as core::iter::traits::iterator::Iterator>::position")
-        if a is None and v[0] == "call" and str(v[1]).endswith("}>") and "Iterator>::position" in str(v[1]):
-            a = v[2]
-        if a is not None:
-            pos, it, clo = v, a[0], a[1]
-            w = call(it[1] if it[0] == "ref" else it, "core::slice::windows")
-            if w is not None:
-                win = w
-    ok_w = False
-    how = "position() over windows() not found"
-    if win is not None:
-        scanned, size = win[0], win[1]
-        idx = call(scanned, "core::slice::index::index")
-        rg = range_(idx[1], "RangeTo") if idx else None
-        end = rg[0] if rg else None
-        ok_w = (idx is not None and idx[0] == buf and size == ("c", 4) and end is not None and end[0] == "min"
-                and {end[1], end[2]} == {("len", buf), ("c", WINDOW)})
-        how = "scans %s" % G.show(scanned)
-    ctx.check(ok_w, "W", "window", "the scan runs over buffer[..min(buffer.len(), 8192)] with windows(4) and Iterator::position",
-              A.site(), how=how, why=how)
-    # closure predicate
-    ok_c = False
-    howc = "closure not found"
-    if clo is not None and clo[0] == "aggr" and clo[1][0] == "closure":
-        ck = [k for k in F.insts if k.startswith(FH) and "{closure#" in k]
-        if len(ck) == 1:
-            C = an.of(F, F.insts[ck[0]])
-            rt, _ = C.ret()
-            howc = G.show(rt)
-            if rt is not None:
-                n = N(rt)
-                if n[0] == "bin" and n[1] == "Eq":
-                    for (x, y) in ((n[2], n[3]), (n[3], n[2])):
-                        if y == ("c", S.HEADER_MAGIC) and x[0] == "from_bytes" and x[1] == "from_le_bytes" and x[3] == "u32":
-                            src = x[2]
-                            if src[0] == "unwrap" and src[1][0] == "call" and "TryFrom<&[u8]> for [u8; 4]" in str(src[1][1]) and src[1][2][0] == arg(2):
-                                ok_c = True
-    ctx.check(ok_c, "W", "predicate", "the scan predicate is u32::from_le_bytes(window) == 0xE85250D6", A.site(), how=howc, why=howc)
+    b = A.body
+    ex = CH.exits(A)
+    # ---- the success exit names the index
+    oks = [e for e in ex if e.kind == "Ok" and e.variant != "None" and e.payload is not None and N(e.payload)[0] == "aggr" and N(e.payload)[1][:3] == SL.SOME[:3]]
+    IDX = None
+    if len(oks) >= 1:
+        pl = N(oks[0].payload)
+        tup = pl[2][0]
+        if tup[0] == "aggr" and tup[1] == ("tuple",) and len(tup[2]) == 2:
+            c = tup[2][1]
+            IDX = c[2] if c[0] == "cast" and c[1] == "IntToInt" and c[3] == "u32" else None
+    if IDX is None:
+        ctx.fail("X", "5:some", "success returns (header slice, i as u32) with i the index the search found", A.site(), "no exit of that shape: %s" % ex)
+        sr = Search()
+    else:
+        sr = search_of(F, A, inst, IDX)
+    # ---- W
+    ok_w = sr.base_ok and sr.k == 4 and sr.W is not None and is_window_len(sr.W)
+    ctx.check(ok_w, "W", "window", "the search covers exactly the 4-byte windows of buffer[..min(buffer.len(), 8192)], from index 0 upwards, stopping at the first hit",
+              A.site(), how="%s over buffer[..%s]" % (sr.kind, G.show(sr.W)[:60] if sr.W else "?"),
+              why="form=%s base=buffer[0..]:%s k=%s W=%s (%s)" % (sr.kind, sr.base_ok, sr.k, G.show(sr.W)[:80] if sr.W else None, sr.how[:300]))
+    ctx.check(sr.pred_ok, "W", "predicate", "a window is a hit iff its 4 bytes are the little-endian header magic 0xE85250D6", A.site(), how=sr.how[:300], why=sr.how[:400])
+
+    if sr.call is not None and "find_map" in (sr.kind or "") and sr.pred_ok and ok_w:
+        # the closure answers Some(enumerate index) exactly for an accepted window (checked above), so the payload of
+        # find_map's answer is an index of windows(k): i + k <= len of the scanned slice.  PANIC's discharges may use it.
+        raw_call = None
+        for bb_, t_ in b.calls():
+            v_ = A.tb.call_value(t_, bb_)
+            if N(v_) == sr.call:
+                raw_call = v_
+        if raw_call is not None:
+            def hook(dt, is_some, raw_call=raw_call):
+                if is_some and dt[1] == raw_call:
+                    idx_raw = A.tb.project(raw_call, [("dc", 1, "Some"), ("f", 0, "0", "usize")])
+                    # the scanned slice was shown to be buffer[..min(len, 8192)] (W:window)
+                    raw_buf = ("arg", 1, b.local_ty(1))
+                    return [("cmp", "Le", ("bin", "Add", idx_raw, T.C(sr.k), "usize"), ("min", ("len", raw_buf), T.C(WINDOW)))]
+                return []
+            A.g.add_fact_hook(hook)
+            from .. import panic as P_
+            if hasattr(P_, "_sites_cache"):
+                P_._sites_cache.clear()
     # ---- P
-    def allow(s):
-        if "find_header::{closure#0}" in s.key() and s.kind == "maypanic" and s.what == "Result::unwrap" and ok_w and ok_c:
+    def allow(s_):
+        if "{closure#" in s_.key() and s_.kind == "maypanic" and s_.what == "Result::unwrap" and ok_w and sr.pred_ok and sr.call is not None:
             return ("the closure is passed only to position() over windows(4), whose items have exactly 4 bytes (std contract): "
                     "<[u8; 4]>::try_from cannot fail")
         return None
     c02.panic_free(ctx, F, [FH], "P", "find_header", allow=allow)
-    # ---- X: exits
-    ex = CH.exits(A)
-    ctx.check(len(ex) == 6, "X", "exits", "find_header has exactly six exits", A.site(), how=str(len(ex)), why=str(ex))
-    if len(ex) == 6 and pos is not None:
-        IDX = ("fld", ("dc", pos, 1), 0)
-        e0, e1, e2 = ex[0], ex[1], ex[2]
-        rest = ex[3:]
-        g0 = e0.kind == "Err" and e0.variant == "Memory::WrongAlignment" and [N(f) for f in e0.own] == [("cmp", "Ne", ("align_offset", ("asptr", buf), ("c", 8)), ("c", 0))]
-        ctx.check(g0, "X", "0:buffer-misaligned", "a buffer that is not 8-aligned is rejected first with Err(WrongAlignment)", A.site(e0.bb),
-                  how=str(e0), why=str(e0))
-        g1 = e1.kind == "Ok" and e1.variant == "None" and CH.own_is_variant(e1, pos, 0) and CH.precedes(e0, e1)
-        ctx.check(g1, "X", "1:none", "Ok(None) is returned exactly when position() finds no window equal to the magic", A.site(e1.bb),
-                  how="own guard discr(position(..)) == None", why=str(e1))
-        # i % 8 != 0, also spelled i & 7 != 0
-        want2 = [("cmp", "Ne", ("bin", "Rem", IDX, ("c", 8)), ("c", 0)), ("cmp", "Ne", ("bin", "BitAnd", IDX, ("c", 7)), ("c", 0))]
-        g2 = e2.kind == "Err" and e2.variant == "Memory::WrongAlignment" and len(e2.own) == 1 and N(e2.own[0]) in want2 and CH.precedes(e1, e2)
-        ctx.check(g2, "X", "2:index-misaligned", "a first occurrence at i with i % 8 != 0 yields Err(WrongAlignment)", A.site(e2.bb),
-                  how="own guard i % 8 != 0 with i the payload of position()", why=str(e2)[:400])
-        errs = [e for e in rest if e.kind == "Err"]
-        oks = [e for e in rest if e.kind == "Ok"]
-        g3 = g4 = g5 = False
-        empty = lambda t: t[0] == "unsize" and t[3] == "&[u8; 0]"
+    # ---- X
+    def found(e):
+        if sr.call is not None:
+            return CH.guarded_by_variant([N(f) for f in e.facts], sr.call, 1)
+        return sr.found_block is not None and b.dominates(sr.found_block, e.bb)
 
-        def is_from(t):
-            """the bytes of the buffer from index i on: buffer.get(i..).unwrap_or(&[]) in call or spliced form, or &buffer[i..]
-            (identical because position() returned i < len)"""
-            t = SEL.canon_place(t)
-            gf = ("call", "core::slice::<impl [u8]>::get::<core::ops::range::RangeFrom<usize>>", (buf, ("aggr", ("adt", "core::ops::range::RangeFrom", "RangeFrom", ("start",)), (IDX,))))
-            if t[0] == "ite" and N(t[1]) == ("cmp", "Eq", ("discr", gf), ("c", 1)) and SEL.canon_place(N(t[2])) == CH.payload_of(gf, 1) and empty(N(t[3])):
+    def none(e):
+        if sr.call is not None:
+            return CH.guarded_by_variant([N(f) for f in e.facts], sr.call, 0)
+        return sr.none_block is not None and b.dominates(sr.none_block, e.bb)
+    iN = SL.Norm([], A).norm(N(IDX)) if IDX is not None else ("opq", "no index")
+    HL = ("le32", BUF, G.canon(SL.add(iN, ("c", 8))))
+    mis_buf = ("cmp", "Ne", ("align_offset", ("asptr", BUF), ("c", 8)), ("c", 0))
+    al_buf = ("cmp", "Eq", ("align_offset", ("asptr", BUF), ("c", 8)), ("c", 0))
+    rem = [("bin", "Rem", iN, ("c", 8)), ("bin", "BitAnd", iN, ("c", 7))]
+    classes = {k_: [] for k_ in ("0:buffer-misaligned", "1:none", "2:index-misaligned", "3:length-field", "4:truncated", "5:some")}
+    stray = []
+
+    def pc_of(e):
+        fs = [N(f) for f in e.facts]
+        if found(e) and sr.k is not None and sr.W is not None:
+            # std contract of position / find_map over windows(k) (iterator form); the loop form carries it as its guard
+            fs.append(("cmp", "Le", SL.add(iN, ("c", sr.k)), sr.W))
+        return SL.norm_facts(fs, A)
+
+    def ent(pc, need):
+        """PC |- need, splitting on the disjunctive facts of PC"""
+        plain = [f for f in pc if f[0] != "or"]
+        ors = [f for f in pc if f[0] == "or"]
+        if G.entails(plain, need) is not None or need in plain:
+            return True
+        for o in ors[:4]:
+            alts = []
+            for conj in o[1]:
+                feasible = not any(c_[0] == "cmp" and G.entails(plain, G.negate(c_)) is not None for c_ in conj)
+                if feasible:
+                    alts.append(conj)
+            if alts and all(G.entails(plain + [c_ for c_ in conj if c_[0] == "cmp"], need) is not None for conj in alts):
                 return True
-            uo = call(t, "core::option::Option::unwrap_or")
-            if uo is not None and uo[0] == gf and empty(uo[1]):
+        return False
+
+    def aligned(pc, want):
+        for r in rem:
+            if ent(pc, ("cmp", "Eq" if want else "Ne", r, ("c", 0))) or ("cmp", "Eq" if want else "Ne", r, ("c", 0)) in pc:
                 return True
-            ix = call(t, "core::slice::index::index") or (t[2] if t[0] == "call" and "Index<core::ops::range::RangeFrom<usize>>" in str(t[1]) else None)
-            if ix is not None and ix[0] == buf and range_(ix[1], "RangeFrom") == (IDX,):
-                return True
-            return False
-        FROM = None
-        G812 = GLEN = None
-        if len(errs) == 2 and len(oks) == 1:
-            f3 = N(errs[0].own[0]) if len(errs[0].own) == 1 else None
-            if f3 is not None and f3[0] == "cmp" and f3[2][0] == "discr":
-                G812 = f3[2][1]
-                a = call(G812, "core::slice::get")
-                if a is not None and range_(a[1], "Range") == (("c", 8), ("c", 12)) and is_from(a[0]):
-                    FROM = a[0]
-                    g3 = CH.own_is_variant(errs[0], G812, 0) and (errs[0].variant or "").startswith("Memory::") and CH.precedes(e2, errs[0])
-            f4 = N(errs[1].own[0]) if len(errs[1].own) == 1 else None
-            if f4 is not None and f4[0] == "cmp" and f4[2][0] == "discr" and FROM is not None:
-                GLEN = f4[2][1]
-                a = call(GLEN, "core::slice::get")
-                LENB = CH.payload_of(G812, 1)
-                le = ("from_bytes", "from_le_bytes", ("unwrap", ("call", "core::array::<impl core::convert::TryFrom<&[u8]> for [u8; 4]>::try_from", (LENB,))), "u32")
-                lens = [("unwrap", ("call", "core::convert::num::ptr_try_from_impls::<impl core::convert::TryFrom<u32> for usize>::try_from", (le,))),
-                        ("cast", "IntToInt", le, "usize")]
-                if a is not None and a[0] == FROM:
-                    r = range_(a[1], "RangeTo")
-                    g4 = r is not None and r[0] in lens and CH.own_is_variant(errs[1], GLEN, 0) and (errs[1].variant or "").startswith("Memory::") and CH.precedes(errs[0], errs[1])
-            pl = N(oks[0].payload) if oks[0].payload is not None else None
-            if pl is not None and pl[0] == "aggr" and pl[1][1].endswith("Option") and pl[1][2] == "Some" and GLEN is not None:
-                tup = pl[2][0]
-                g5 = tup[0] == "aggr" and tup[1] == ("tuple",) and tup[2][0] == CH.payload_of(GLEN, 1) and tup[2][1] == ("cast", "IntToInt", IDX, "u32") and \
-                    CH.own_is_variant(oks[0], GLEN, 1) and CH.precedes(errs[1], oks[0])
-        ctx.check(g3, "X", "3:length-field", "the header length is read from buffer[i..].get(8..12) (bytes i+8..i+12 of the buffer itself); if unavailable -> Err",
-                  A.site(), how="buffer.get(i..).unwrap_or(&[]).get(8..12)", why=str([G.show(N(e.own[0]))[:300] for e in errs[:1] if e.own]))
-        ctx.check(g4, "X", "4:truncated", "the header slice is buffer[i..].get(..len) with len the little-endian u32 just read; if it does not fit -> Err",
-                  A.site(), how="from_magic.get(..u32::from_le_bytes(..) as usize)", why=str([G.show(N(e.own[0]))[:300] for e in errs[1:] if e.own]))
-        ctx.check(g5, "X", "5:some", "success returns (that slice, i as u32), after all error exits", A.site(),
-                  how="Some((header, i as u32))", why=str([G.show(e.val)[:300] for e in oks]))
-    ctx.note("`first occurrence` and the exact iff rest on the std contracts of slice::windows (all length-4 sub-slices in order) and "
-             "Iterator::position (first index whose predicate holds) - not re-proved here")
+        return False
+    unreachable = []
+    for e in ex:
+        pc = pc_of(e)
+        if ("const", False) in pc or G.entails([f for f in pc if f[0] == "cmp"], ("cmp", "Le", ("c", 1), ("c", 0))) is not None:
+            # the path condition contradicts itself (e.g. the `_` arm of a slice pattern over a 4-byte slice): no input takes it
+            unreachable.append(e)
+            continue
+        if e.kind == "Err" and e.variant == "Memory::WrongAlignment" and not found(e) and not none(e):
+            good = mis_buf in pc and len(e.facts) <= 2
+            classes["0:buffer-misaligned"].append((e, good, "own guard align_offset(buffer, 8) != 0, first test of the function"))
+        elif e.kind == "Ok" and e.variant == "None":
+            good = none(e) and al_buf in pc
+            classes["1:none"].append((e, good, "taken on the search's `none` outcome only"))
+        elif e.kind == "Err" and e.variant == "Memory::WrongAlignment":
+            good = found(e) and al_buf in pc and aligned(pc, False)
+            classes["2:index-misaligned"].append((e, good, "PC |- found, i % 8 != 0"))
+        elif e.kind == "Err" and (e.variant or "").startswith("Memory::"):
+            base_ok = found(e) and al_buf in pc and aligned(pc, True)
+            short = ent(pc, ("cmp", "Gt", SL.add(iN, ("c", 12)), NLEN))
+            if base_ok and short:
+                classes["3:length-field"].append((e, True, "PC |- found, i % 8 == 0, i + 12 > len"))
+            else:
+                fits12 = ent(pc, ("cmp", "Le", SL.add(iN, ("c", 12)), NLEN))
+                trunc = ent(pc, ("cmp", "Gt", SL.add(iN, HL), NLEN))
+                good = base_ok and fits12 and trunc
+                classes["4:truncated" if (fits12 or trunc) else "3:length-field"].append(
+                    (e, good, "PC |- found, i %% 8 == 0, i + 12 <= len, i + hl > len (fits12=%s truncated=%s)" % (fits12, trunc)))
+        elif e.kind == "Ok":
+            pl = SL.Norm([f for f in pc if f[0] == "cmp"], A).norm(N(e.payload)) if e.payload is not None else None
+            good = False
+            why = "payload %s" % (G.show(pl)[:200] if pl is not None else None)
+            if pl is not None and pl[0] == "aggr" and pl[1][:3] == SL.SOME[:3] and pl[2][0][0] == "aggr" and pl[2][0][1] == ("tuple",):
+                sl_, ix = pl[2][0][2]
+                sl_ = SL.Norm([f for f in pc if f[0] == "cmp"], A).unref(sl_)
+                Bs, lo, hi = SL.as_sub(sl_)
+                slice_ok = sl_[0] == "sub" and Bs == BUF and SL.same(lo, iN) and SL.same(hi, SL.add(iN, HL))
+                idx_ok = ix == ("cast", "IntToInt", iN, "u32")
+                conds = found(e) and al_buf in pc and aligned(pc, True) and ent(pc, ("cmp", "Le", SL.add(iN, ("c", 12)), NLEN)) and \
+                    ent(pc, ("cmp", "Le", SL.add(iN, HL), NLEN))
+                good = slice_ok and idx_ok and conds
+                why = "slice == buffer[i..i+hl]: %s; index == i as u32: %s; PC |- found, aligned, i + 12 <= len, i + hl <= len: %s" % (slice_ok, idx_ok, conds)
+            classes["5:some"].append((e, good, why))
+        else:
+            stray.append(e)
+    if unreachable:
+        ctx.note("%d exit(s) have a contradictory path condition and are taken by no input: %s" % (len(unreachable), [str(e)[:80] for e in unreachable]))
+    ctx.check(not stray, "X", "exits", "every exit of find_header is one of the six outcomes of the statement", A.site(), how="%d exits" % len(ex), why=str(stray))
+    texts = {
+        "0:buffer-misaligned": "a buffer that is not 8-aligned is rejected first with Err(WrongAlignment)",
+        "1:none": "Ok(None) is returned exactly when the search finds no window equal to the magic",
+        "2:index-misaligned": "a first occurrence at i with i % 8 != 0 yields Err(WrongAlignment)",
+        "3:length-field": "if the length field buffer[i+8..i+12] is not inside the buffer -> Err",
+        "4:truncated": "the header length is the little-endian u32 at buffer[i+8..i+12]; if buffer[i..i+len] does not fit -> Err",
+        "5:some": "success returns (buffer[i..i+len], i as u32), under all the preceding tests",
+    }
+    for k_, lst in classes.items():
+        ok = bool(lst) and all(g for (_, g, _) in lst)
+        ctx.check(ok, "X", k_, texts[k_], A.site(lst[0][0].bb) if lst else A.site(),
+                  how="; ".join(sorted({h for (_, _, h) in lst}))[:300],
+                  why="%d exits of this kind; %s" % (len(lst), [(str(e)[:120], g, h[:200]) for (e, g, h) in lst if not g][:3]))
+    ctx.note("`first occurrence` for the iterator forms rests on the std contracts of slice::windows (all length-4 sub-slices in order) and "
+             "Iterator::position / find_map (first item whose predicate holds) - not re-proved here; for the loop form it is read off the CFG")
     c = F.consts.get("multiboot2_header::header::MAGIC")
     ctx.check(c is not None and c.get("v") == S.HEADER_MAGIC, "W", "MAGIC", "the compared constant is the specified header magic", (c or {}).get("span", ""),
               how="0x%x" % (c or {}).get("v", 0), why=str(c))
     return ctx.finish(
         "other",
-        "Structural part of the statement: the scanned window, the scan predicate, the dominance-ordered exits with their guards and "
-        "the exact slices returned, and a panic-edge census of find_header and its closure. The `first occurrence`/iff exactness is "
-        "delegated to the std contracts of windows/position.",
-        ["rustc MIR", "mb2rules PANIC/CHAIN/TERMS", "std: slice::windows, Iterator::position, slice::get, u32::from_le_bytes, <[u8;4]>::try_from"],
-        "one obligation per panic site, per exit, per structural element of the scan",
+        "Structural part of the statement: the scanned window, the scan predicate, every exit with its path condition brought to "
+        "linear constraints over (len, i, stored length) and compared with the statement's decision list, the exact slice returned, "
+        "and a panic-edge census of find_header and its closure. For the iterator forms the `first occurrence`/iff exactness is "
+        "delegated to the std contracts of windows/position/find_map.",
+        ["rustc MIR", "mb2rules PANIC/CHAIN/TERMS/SLICE", "std: slice::windows, Iterator::position, slice::get, u32::from_le_bytes, <[u8;4]>::try_from"],
+        "one obligation per panic site, per outcome class, per structural element of the scan",
     )
